@@ -20,12 +20,13 @@ import (
 func TestVerifC11(t *testing.T) {
 	res := vx.New("a case is one (tree of staticcheck.conf files, -checks/-fail flag lists) combination, enumerated in list-length order; in part A each is loaded and resolved by the real config.Load/Merge/filterAnalyzerNames and compared with the documentation model for every registered check; non-trivial = the resolved set differs from the default set (A), the problem lies outside the -fail set (exit cases), or the run's printed problems are a proper subset of / differ from the default run (B)")
 	defer res.Write()
-	res.SetBudget(vx.Pick(100*time.Second, 17*time.Minute))
+	budget := vx.Pick(100*time.Second, 17*time.Minute)
 	if s := os.Getenv("C11_BUDGET"); s != "" { // development aid
 		if d, err := time.ParseDuration(s); err == nil {
-			res.SetBudget(d)
+			budget = d
 		}
 	}
+	res.SetBudget(budget)
 	// The enumeration allocates many small short-lived maps (the real filter returns one per
 	// call); with a heap of a few MB the collector would run thousands of cycles per second and
 	// serialise the 16 workers. A pointer-free, never touched ballast moves the trigger to ~256 MiB (fresh pages are expensive in this sandbox, so not more).
@@ -63,6 +64,7 @@ func TestVerifC11(t *testing.T) {
 	only := os.Getenv("C11_ONLY") // development aid: "A", "B"
 	if only == "" || only == "A" {
 		t0 := time.Now()
+		env.deadline = t0.Add(budget / 2)
 		env.runPartA()
 		res.Count("A_wall_ms", time.Since(t0).Milliseconds())
 		t0 = time.Now()
@@ -70,7 +72,10 @@ func TestVerifC11(t *testing.T) {
 		env.c11Probes()
 		res.Count("FX_wall_ms", time.Since(t0).Milliseconds())
 	}
-	if only == "" || only == "B" {
+	if env.capped.Load() {
+		// the in-process parts already failed massively; the slow end-to-end part adds nothing
+		res.Note("part B not run: an in-process part stopped after %d violations", c11MaxViolationsPerPart)
+	} else if only == "" || only == "B" {
 		t0 := time.Now()
 		env.runPartB()
 		res.Count("B_wall_ms", time.Since(t0).Milliseconds())
